@@ -15,7 +15,11 @@ META = {
                  "of agreeing ones) are validated by TLC against the contract LowMarkBufTrace.tla with real numbers; the real "
                  "DltMessageIterator over LowMarkBufReader (low mark as configured at the adlt call sites) is run over generated "
                  "streams under many read schedules/capacities and on message-aligned suffixes, each run validated by TLC against "
-                 "ChunkTrace.tla (reference = parse of the whole slice)",
+                 "ChunkTrace.tla (reference = parse of the whole slice); FramingTail.tla (exact 4-byte-token model of the iterator: every "
+                 "tail <= 5(6) tokens - truncated messages, messages of either framing embedded in truncated messages or garbage - "
+                 "behind 0/1/2/5 complete messages of either framing) is model-checked for prefix independence, every (framing, tail) "
+                 "replayed on the real iterator (prediction fast path) and a byte-granular grid of tails of 19/20/21/35/36/39..41/59..61 "
+                 "(serial: 7..9/15..17/19..21/39..41) bytes x 6 tail classes x 0/1/2/5 preceding messages validated against ChunkTrace.tla",
     "design_ref": "DESIGN.md section 6, C04; Appendix B, Appendix L",
     "level_text": "Exhaustive within bounds on the models (reader: CL=2, LM<=4, capacity LM+CL..LM+CL+2, source <= 11 model bytes, all "
                   "interleavings of fill/consume/read/seek with all short-read schedules; parser o visibility: all 21845 token "
@@ -27,7 +31,10 @@ META = {
                   "source). Narrowed: consume() only within the last fill_buf slice (BufRead contract); seeks stay within [0, source "
                   "length] and only seeks into the window handed out last are required to succeed; prefix independence is checked on "
                   "streams without markers of the *other* framing (auto-detection makes those position dependent by design) and not on "
-                  "serial suffixes whose first message starts within the last 19 bytes (C01's known finding); chunk independence "
+                  "serial suffixes whose first message starts within the last 19 bytes (C01's known finding); for tails the "
+                  "comparison 'tail alone (fresh iterator) = tail behind complete messages' is claimed iff the tail holds no frame marker of the "
+                  "other framing, or the stream is storage-framed and the tail starts with a truncated storage message whose 20 header bytes "
+                  "are complete (any iterator must stop there) - 'behind 1 = behind 2 = behind 5 messages' is claimed for every tail; chunk independence "
                   "compares the yielded messages (index, offset, length, content hash), not the end counters. The low mark is "
                   "taken from the call sites in src/bin/adlt/convert.rs and remote.rs (text match); the BufParse model is not replayed "
                   "token by token (its read schedules are; its streams have no faithful byte concretisation).",
@@ -218,10 +225,46 @@ def check(ctx):
                       ("first msg deleted", delete_first("msg")),
                       ("msg.off shifted", set_field("msg", "off", lambda x: x + 1)),
                       ("msg.index shifted", set_field("msg", "index", lambda x: x + 1))])
+    # tails: what is recognised in the tail of a stream does not depend on the complete messages in front of it
+    # (spec/FramingTail.tla: exact 4-byte-token model, every tail <= NT tokens incl. truncated messages that embed messages of
+    # either framing; its off-by-one variant of the "short storage probe" rule must violate PrefixIndep)
+    rt = c.tlc_must_pass(ctx, "framing-tail", "FramingTail.tla", "FramingTail_quick.cfg" if quick else "FramingTail_thorough.cfg", timeout=3000)
+    offb = c.tlc(os.path.join(c.SPEC, "FramingTail.tla"), os.path.join(c.SPEC, "mc", "FramingTail_offbyone.cfg"), ctx.path("tlc-framing-tail-offbyone"),
+                 timeout=3000, keep_log=ctx.path("tlc-framing-tail-offbyone.log"))
+    ctx.extra["tail_model_offbyone_variant_violates"] = offb.violation == "PrefixIndep"
+    if offb.violation != "PrefixIndep":
+        raise c.ToolError("FramingTail with Rule = gt was expected to violate PrefixIndep; got %s" % offb.violation)
+    tscn = ctx.path("tail-scenarios.ndjson")
+    n_tail = 0
+    with open(tscn, "w") as f:
+        for payload in rt.printed.get("SCN", []):
+            f.write(json.loads(payload) + "\n")
+            n_tail += 1
+    rt.printed = {}
+    if n_tail == 0:
+        raise c.ToolError("no tail scenarios emitted")
+    tr3 = ctx.path("trace-tails.ndjson")
+    info3 = drive(binp, ["--mode", "tails", "--scenarios", tscn, "--seed", str(ctx.seed), "--lm-extra", str(lm_extra),
+                         "--sample-every", str(max(1, n_tail // 300))], tr3)
+    consts3 = {"KF_C04_MaxMsgWindow": False}
+    v3 = c.validate_trace(ctx, "tails", "ChunkTrace.tla", tr3, consts3, timeout=6000)
+    ctx.add_tlc("trace-validation-tails", v3.res)
+    cases3 = c.split_cases(tr3)
+    report(ctx, v3, cases3, "ChunkTrace.tla", consts3, "tails")
+    ctx.extra["tails"] = {k: v for k, v in info3.items() if k not in ("cases", "lines")}
+    ctx.extra["tails"]["design_conformance"] = {"steps": info3["replayed"], "mismatches": info3["drift"]}
+    if not ctx.violations:
+        if info3["tail_alone_runs"] == 0 or info3["latched_suffix_runs"] == 0 or info3["claimed_tails"] == 0:
+            raise c.ToolError("vacuity: no tail-alone / latched suffix runs in the tails part")
+        for need in ("storage.trunc+other.claimed", "storage.trunc+same.claimed", "storage.trunc.claimed", "storage.garbage.claimed", "serial.trunc.claimed",
+                     "serial.trunc+same.claimed", "serial.garbage.claimed"):
+            if not info3["grid"].get(need):
+                raise c.ToolError("vacuity: tail class %s never generated" % need)
     # evidence
     runs2 = info2["chunk_runs"] + info2["suffix_runs"]
-    ctx.evaluations = info1["replayed"] + info1["random"] + runs2
-    ctx.traces_validated = (info1["cases"] - len(v1.violations)) + (info2["cases"] - len(v2.violations))
+    runs3 = info3["chunk_runs"] + info3["latched_suffix_runs"] + info3["tail_alone_runs"]
+    ctx.evaluations = info1["replayed"] + info1["random"] + runs2 + info3["replayed"] + runs3
+    ctx.traces_validated = (info1["cases"] - len(v1.violations)) + (info2["cases"] - len(v2.violations)) + (info3["cases"] - len(v3.violations))
     distinct_runs = set()
     for k, evs in cases2.items():
         for e in evs:
